@@ -3,3 +3,7 @@ reg("C15", "exploration",
     "Exhaustive enumeration of the small domains (all F2Dot14, all 255UShort, T2/CFF/T1 integer ranges, all eexec keys, all uni/u glyph names; all well-formed 4-char tags in the thorough tier) plus seeded generation over the large ones, each value checked by decode(encode(v))==v, by the canonical-size rule of the format and by an independent reference decoder.",
     "Reference decoders written from the CFF/Type 2, WOFF2, gvar and Type 1 specifications are trusted; large domains (16.16, reals, base128, point sets, delta runs) are sampled, not exhausted.",
     "exhaustive enumeration + property-based round-trip with independent reference decoders", "DESIGN.md section 2 C15")
+reg("C05", "exploration",
+    "Differential testing of the glyph-set API against HarfBuzz (FreeType adjudicating) over every glyph of every corpus font at the default location and at generated variation locations (axis extremes, corners, interior, avar segment ends, out-of-range), outlines compared up to representation by vf.geom with 0.51-unit tolerance, advances within 1 unit.",
+    "HarfBuzz/FreeType are trusted as correct OpenType implementations; corpus fonts only in this round (generated fonts are exercised through C02/C10/C12); VARC compared at tolerance 2.0 (see evidence assumptions).",
+    "differential testing against independent implementations over enumerated corpus x generated locations", "DESIGN.md section 2 C05")
